@@ -172,7 +172,7 @@ func runScenario(c c15Case) interface{} {
 			if !ok {
 				panic("cluster not created: " + cl.Name)
 			}
-			waitFor(3*time.Second, "pre-history probes", func() bool {
+			waitFor(60*time.Second, "pre-history probes", func() bool {
 				for e, s := range eps[ci] {
 					st := 1
 					if e < len(states) {
@@ -206,7 +206,7 @@ func runScenario(c c15Case) interface{} {
 			einfos[ci] = append(einfos[ci], e)
 		}
 	}
-	waitFor(3*time.Second, "endpoints ready", func() bool {
+	waitFor(60*time.Second, "endpoints ready", func() bool {
 		for ci := range einfos {
 			for _, e := range einfos[ci] {
 				if !e.IsReady() {
@@ -298,7 +298,7 @@ func runScenario(c c15Case) interface{} {
 			return lr.chunks >= 2
 		}
 	}
-	deadline := time.Now().Add(3 * time.Second)
+	deadline := time.Now().Add(60 * time.Second)
 	for time.Now().Before(deadline) {
 		ok := true
 		for _, lr := range reqs {
@@ -366,7 +366,7 @@ func runScenario(c c15Case) interface{} {
 	for ci := range einfos {
 		flat = append(flat, einfos[ci]...)
 	}
-	for time.Since(t0) < 2*time.Second {
+	for time.Since(t0) < 20*time.Second {
 		waiting := false
 		for _, lr := range reqs {
 			if si := stubOf(lr); si >= 0 && flat[si].Context().Err() != nil {
@@ -416,7 +416,7 @@ func runScenario(c c15Case) interface{} {
 	// wait (generously) until every endpoint whose context is still alive has been probed; endpoints
 	// whose context is done get at least 200 ms to show a probe that must not come
 	tickStart := time.Now()
-	for time.Since(tickStart) < 3*time.Second {
+	for time.Since(tickStart) < 30*time.Second {
 		pending := false
 		k := 0
 		for ci := range einfos {
@@ -441,13 +441,13 @@ func runScenario(c c15Case) interface{} {
 		}
 	}
 
-	// wait for the end of every request (streams last 1 s; everything beyond 8 s is a hang)
+	// wait for the end of every request (streams last 1 s; everything beyond 60 s is a hang)
 	finish := func(list []*liveReq) []reqObs {
 		out := []reqObs{}
 		for _, lr := range list {
 			select {
 			case <-lr.done:
-			case <-time.After(time.Until(t0.Add(8 * time.Second))):
+			case <-time.After(time.Until(t0.Add(60 * time.Second))):
 				lr.mu.Lock()
 				lr.obs.Hang = true
 				lr.mu.Unlock()
@@ -462,7 +462,7 @@ func runScenario(c c15Case) interface{} {
 			for si, s := range all {
 				rec, ok := s.stream(lr.key)
 				// the upstream notices a disconnect asynchronously (its connection reader): give it the same bound
-				for w := time.Now().Add(2 * time.Second); ok && rec.ended == "" && time.Now().Before(w); {
+				for w := time.Now().Add(20 * time.Second); ok && rec.ended == "" && time.Now().Before(w); {
 					time.Sleep(time.Millisecond)
 					rec, ok = s.stream(lr.key)
 				}
